@@ -44,7 +44,9 @@ struct V {
 fn frame(v: &V, addr: u32) -> Frame {
     let b6 = match v.base {
         0 => frames::surv_bits(0, 0, 0, v.id13),
-        _ => frames::surv_bits(7, 31, 63, v.id13),
+        1 | 2 => frames::surv_bits(7, 31, 63, v.id13),
+        // 3..=16: exactly one of the 14 FS/DR/UM bits set
+        k => (1u32 << (13 + (k - 3))) | v.id13,
     };
     if v.df == 5 {
         frames::short_ap(5, b6, addr)
@@ -52,7 +54,9 @@ fn frame(v: &V, addr: u32) -> Frame {
         let mb = match v.base {
             0 => 0,
             1 => 0x00FF_FFFF_FFFF_FFFF,
-            _ => frames::mb_bds20(frames::callsign_codes("VERIF17")),
+            2 => frames::mb_bds20(frames::callsign_codes("VERIF17")),
+            // one MB bit set per base (walks over the first 14 and every 4th later bit)
+            k => 1u64 << (55 - ((k as u64 - 3) * 4)),
         };
         frames::long_ap(21, b6, mb, addr)
     }
@@ -123,14 +127,18 @@ fn other_formats(addr: u32) -> Vec<(&'static str, Frame)> {
 
 fn run(ctx: &mut Ctx) {
     let mut items: Vec<V> = vec![];
-    let bases: &[u32] = if ctx.tier.thorough() { &[0, 1, 2] } else { &[0, 1] };
+    let all_bases: Vec<u32> = (0..17).collect();
+    let bases: &[u32] = if ctx.tier.thorough() { &all_bases } else { &[0, 1] };
     for df in [5u32, 21] {
         for &base in bases {
             if df == 5 && base == 2 {
                 continue;
             }
             for (update, pre) in [(false, 0u32), (true, 0), (true, 1), (true, 2), (true, 3)] {
-                if pre > 0 && base > 0 {
+                if pre > 0 && base > 0 && base < 3 {
+                    continue;
+                }
+                if base >= 3 && pre != 0 && pre != 2 {
                     continue;
                 }
                 for id13 in 0..8192u32 {
